@@ -19,6 +19,7 @@ import (
 	"github.com/formancehq/ledger/internal/storage/common"
 	systemstore "github.com/formancehq/ledger/internal/storage/system"
 	"github.com/formancehq/ledger/verifh/ev"
+	"github.com/formancehq/ledger/verifh/lx"
 	"github.com/formancehq/ledger/verifh/pgsim"
 	"github.com/formancehq/ledger/verifh/world"
 )
@@ -201,4 +202,15 @@ func phasedFor(r *ev.Run, n int, size func(i int) int, fn func(i int)) bool {
 		lo = hi
 	}
 	return true
+}
+
+// safeApply is lx.Apply with a panic barrier: a panic inside the ledger while it serves
+// a request is an outcome of that request (class "panic"), not a crash of the harness.
+func safeApply(ctx context.Context, ctrl ledgercontroller.Controller, op lx.Op) (out lx.Outcome) {
+	defer func() {
+		if p := recover(); p != nil {
+			out = lx.Outcome{Err: fmt.Errorf("panic while serving the request: %v", p), Class: "panic"}
+		}
+	}()
+	return lx.Apply(ctx, ctrl, op)
 }
